@@ -127,7 +127,7 @@ def run(ctx):
     orig = proj.literal_operands
     proj.literal_operands = lambda p: COUNT_OPS
     try:
-        generic_pipeline_check(ctx, [("I18nVerif.Theorems.C05", "C05_")], projects, oracle, "C05")
+        generic_pipeline_check(ctx, [("I18nVerif.Theorems.C05", "C05_"), ("I18nVerif.Theorems.C05Map", "C05_")], projects, oracle, "C05")
         more = [proj.gen_project(rng, {"fk": True, "locale_pool": LOCALES}) for _ in range(ctx.budget(150, 3000))]
     finally:
         proj.literal_operands = orig
